@@ -37,7 +37,7 @@ def make_remote(spec, via_file):
     with tempfile.TemporaryDirectory(prefix="aiosw-verif-ir-") as td:
         path = os.path.join(td, "irset_db.json")
         other = dict(spec, id="OTHER001", seed=spec.get("seed", 0) + 1)
-        with open(path, "w") as fh:
+        with open(path, "w", encoding="utf-8") as fh:
             json.dump({"OTHER001": irset.expand(other), spec["id"]: ir}, fh)
         mgr = SwitcherBreezeRemoteManager(path)
         if spec.get("seed", 0) % 2:
